@@ -10,7 +10,7 @@
    empty, absolute, NUL, over-long), symlink entries with arbitrary targets, repeated names,
    missing and undecodable blocks, raw roots. *)
 From GoCar Require Import Bytes ExtractFs.
-From GoCarProofs Require Import ExtractFsCmd ExtractFsExamples ExtractFsKernel.
+From GoCarProofs Require Import ExtractFsCmd ExtractFsExamples ExtractFsKernel ExtractFsRoundTrip.
 
 (* Containment.  Whatever the archive and whatever already is in the file system, every physical
    path that is not the resolved output directory or below it is mapped to exactly what it was
@@ -126,3 +126,19 @@ Theorem C17_extract_main_stdout_mode_touches_nothing_else_contained :
        forall p, ~ under (phys_of cwd root) p -> look fs' p = look fs p).
 Proof. exact extract_main_contained. Qed.
 Print Assumptions C17_extract_main_stdout_mode_touches_nothing_else_contained.
+
+(* Modification times.  A regular file's mtime changes when it is written, a directory's when an
+   entry is added to or removed from it.  Outside the output directory no path is written
+   (containment: its binding, contents included, is what it was) and every directory there lists the
+   same entries as before, the parent of the output directory included; the extraction calls no
+   utimes.  The correspondence check gives every sandbox entry a known mtime before the run and
+   compares, for every file and directory outside the output directory, whether it is still that. *)
+Theorem C17_entries_of_outside_directories_unchanged :
+  forall fs cwd outdir pathflag roots root fs' res,
+    (forall k, look fs (Nat.iter k (@removelast name) cwd) = Some NDir) ->
+    eval_symlinks_str fs cwd outdir = Some root ->
+    extract_cmd true fs cwd outdir pathflag roots = (fs', res) ->
+    forall q c, ~ under (phys_of cwd root) q ->
+      (look fs' (q ++ [c]) = None <-> look fs (q ++ [c]) = None).
+Proof. exact outside_directory_entries_unchanged. Qed.
+Print Assumptions C17_entries_of_outside_directories_unchanged.
